@@ -365,6 +365,17 @@ def ep_scale(impl_flat):
     return s
 
 
+def nonfinite_paths(ep_ok):
+    """paths of the implementation's result whose value is not a finite number (the runner writes NaN / inf as text)"""
+    out = []
+    for k, v in flatten(ep_ok).items():
+        if k.startswith(("components", "wfactors")):
+            continue
+        if isinstance(v, str) and v.strip().lower().lstrip("+-") in ("nan", "inf", "infinity"):
+            out.append(k)
+    return out
+
+
 def compare_ep(impl_ok, model_rows, select=None, rel=Fraction(2, 100000), ratio_abs=Fraction(1, 10000)):
     """Compare the implementation's EP dump (runner JSON, 'ok' part) with the model rows.
     select: optional predicate on path. Returns list of (path, impl, model) disagreements."""
